@@ -33,7 +33,7 @@ CLAIMED = {
          'Reference resolver written from the statement.', 'DESIGN.md 4/C09'),
  'C10': ('exploration', 'property-based testing (proptest) of black-box exit scenarios: generated graph x exit cause x instant (rendezvous), latency bound and /proc marker-scan oracle',
          'Generated scenarios against the real binary with real signals and processes, including processes replaced after input changes in watch mode and 1/2/4/default runtime threads.',
-         'One wall-clock bound (5 s vs scripts that sleep 28 h); exec-form scripts.', 'DESIGN.md 4/C10'),
+         'One wall-clock bound (5 s vs scripts that sleep 28 h); for non-exec scripts only the shells zinoma spawned are required to be gone.', 'DESIGN.md 4/C10'),
  'C11': ('exploration', 'property-based testing (proptest) over service/build/aggregate graphs and schedules (SIM), keep-alive and alternation oracles',
          'Generated graphs x requested subsets x schedules (+ notices in watch mode).',
          'Virtual service processes (spawn/stop observed through hooks).', 'DESIGN.md 4/C11'),
@@ -48,7 +48,7 @@ CLAIMED = {
          'Validator over the generated AST; error texts not compared.', 'DESIGN.md 4/C14'),
  'C15': ('exploration', 'property-based testing (proptest): generated trees and declarations, real lister vs independent reference walker (regular files and link entries to regular files MUST be denoted, nothing else may be), watcher predicate agreement',
          'Generated trees with odd names, .zinoma at any depth, links to files, to directories, outside the tree and dangling.',
-         'Listed paths never symlinks / .zinoma.', 'DESIGN.md 4/C15'),
+         'Listed paths are never links themselves and never lie inside or below a directory named .zinoma (no behaviour is pinned for projects located below such a directory).', 'DESIGN.md 4/C15'),
  'C19': ('exploration', 'property-based testing (proptest): generated project sets with overlapping target names; name-set equality, spelling and bare-reference oracles on the real loader/resolver',
          'Generated project sets x requested spellings x references.',
          'In-crate loader and resolver.', 'DESIGN.md 4/C19'),
@@ -63,7 +63,7 @@ CLAIMED = {
          'With a failing member only the verdict is compared.', 'DESIGN.md 4/C20'),
  'C17': ('exploration', 'property-based testing (proptest) with withheld completions (SIM): ready => started at message-quiescent points',
          'Generated graphs x schedules in which scripts stay running as long as possible.',
-         'One-shot runs without failures.', 'DESIGN.md 4/C17'),
+         'One-shot runs without failures; BB parts add rendezvous antichains, a slow hub check and 9-120 independent targets.', 'DESIGN.md 4/C17'),
 }
 ENGINE = {'C01':'SIM+BB','C02':'INC+BB','C03':'INC+BB','C04':'SIM+BB','C05':'BB+FUZZ','C06':'SIM+BB','C07':'SIM+BB','C08':'SIM+BB','C09':'INC+BB','C10':'BB','C11':'SIM+BB','C12':'BB','C13':'INC+BB','C14':'INC+BB+FUZZ','C15':'INC','C16':'INC+BB','C17':'SIM+BB','C18':'BB','C19':'INC+BB','C20':'SIM+BB'}
 ALL = [json.loads(l)['id'] for l in open('/verif/properties.jsonl')]
